@@ -38,6 +38,7 @@ type Prog struct {
 	combMissing []string
 	mayWrite    map[*ssa.Function]map[*types.Var]bool
 	ctxCache    *ctxInfo
+	fuzzy       []string // anchors resolved to a renamed object
 }
 
 func shortName(s string) string {
@@ -190,8 +191,45 @@ func fieldOfAddr(fa *ssa.FieldAddr) *types.Var {
 	return st.Field(fa.Field)
 }
 
-// Fn returns the repository function with the given short name, or nil.
-func (p *Prog) Fn(name string) *ssa.Function { return p.ByNm[name] }
+// Fn returns the repository function with the given short name, or nil. A
+// method that was renamed is found through its receiver type when exactly
+// one method has a similar name.
+func (p *Prog) Fn(name string) *ssa.Function {
+	if f := p.ByNm[name]; f != nil {
+		return f
+	}
+	// "(*pkg.Type).method" or "pkg.func"
+	if strings.HasPrefix(name, "(") {
+		end := strings.Index(name, ").")
+		if end < 0 || strings.Contains(name, "$") {
+			return nil
+		}
+		recv := strings.TrimPrefix(strings.TrimPrefix(name[1:end], "*"), "")
+		if m := p.Method(recv + "." + name[end+2:]); m != nil {
+			return p.SSA.FuncValue(m)
+		}
+		return nil
+	}
+	if i := strings.IndexByte(name, '.'); i > 0 && !strings.Contains(name, "$") {
+		pk := p.Typs[name[:i]]
+		if pk == nil {
+			return nil
+		}
+		var names []string
+		var fs []*types.Func
+		for _, n := range pk.Scope().Names() {
+			if f, ok := pk.Scope().Lookup(n).(*types.Func); ok {
+				names = append(names, n)
+				fs = append(fs, f)
+			}
+		}
+		if j := similarName(name[i+1:], names); j >= 0 {
+			p.fuzzy = append(p.fuzzy, name+" -> "+names[j])
+			return p.SSA.FuncValue(fs[j])
+		}
+	}
+	return nil
+}
 
 // Named looks up a named type "pkg.Type".
 func (p *Prog) Named(q string) *types.Named {
@@ -230,7 +268,46 @@ func (p *Prog) Field(q string) *types.Var {
 			return st.Field(k)
 		}
 	}
+	// renamed field: a unique field of the same struct with a similar name
+	var names []string
+	for k := 0; k < st.NumFields(); k++ {
+		names = append(names, st.Field(k).Name())
+	}
+	if j := similarName(q[i+1:], names); j >= 0 {
+		p.fuzzy = append(p.fuzzy, q+" -> "+names[j])
+		return st.Field(j)
+	}
 	return nil
+}
+
+// similarName returns the index of the unique candidate that is the same
+// name up to case and common affixes, or contains / is contained in the
+// wanted name (at least 4 characters), or -1.
+func similarName(want string, cands []string) int {
+	norm := func(s string) string {
+		s = strings.ToLower(s)
+		s = strings.ReplaceAll(s, "_", "")
+		return s
+	}
+	w := norm(want)
+	hit := -1
+	n := 0
+	for i, c := range cands {
+		if norm(c) == w {
+			return i
+		}
+	}
+	for i, c := range cands {
+		cn := norm(c)
+		if len(w) >= 4 && len(cn) >= 4 && (strings.Contains(cn, w) || strings.Contains(w, cn)) {
+			hit = i
+			n++
+		}
+	}
+	if n == 1 {
+		return hit
+	}
+	return -1
 }
 
 // Method looks up a method (concrete or interface) "pkg.Type.Method".
@@ -247,8 +324,28 @@ func (p *Prog) Method(q string) *types.Func {
 	if obj == nil {
 		obj, _, _ = types.LookupFieldOrMethod(n, true, n.Obj().Pkg(), q[i+1:])
 	}
-	f, _ := obj.(*types.Func)
-	return f
+	if f, ok := obj.(*types.Func); ok {
+		return f
+	}
+	// renamed method: a unique method of the same type with a similar name
+	var ms []*types.Func
+	var names []string
+	if it, ok := n.Underlying().(*types.Interface); ok {
+		for k := 0; k < it.NumMethods(); k++ {
+			ms = append(ms, it.Method(k))
+			names = append(names, it.Method(k).Name())
+		}
+	} else {
+		for k := 0; k < n.NumMethods(); k++ {
+			ms = append(ms, n.Method(k))
+			names = append(names, n.Method(k).Name())
+		}
+	}
+	if j := similarName(q[i+1:], names); j >= 0 {
+		p.fuzzy = append(p.fuzzy, q+" -> "+names[j])
+		return ms[j]
+	}
+	return nil
 }
 
 // PkgFunc looks up a package level function "pkg.Func".
@@ -258,8 +355,22 @@ func (p *Prog) PkgFunc(q string) *types.Func {
 	if pk == nil {
 		return nil
 	}
-	f, _ := pk.Scope().Lookup(q[i+1:]).(*types.Func)
-	return f
+	if f, ok := pk.Scope().Lookup(q[i+1:]).(*types.Func); ok {
+		return f
+	}
+	var names []string
+	var fs []*types.Func
+	for _, n := range pk.Scope().Names() {
+		if f, ok := pk.Scope().Lookup(n).(*types.Func); ok {
+			names = append(names, n)
+			fs = append(fs, f)
+		}
+	}
+	if j := similarName(q[i+1:], names); j >= 0 {
+		p.fuzzy = append(p.fuzzy, q+" -> "+names[j])
+		return fs[j]
+	}
+	return nil
 }
 
 // Pos renders a position relative to the repository root.
